@@ -371,6 +371,8 @@ pub struct KeyWorld {
     last_n: usize,
     /// end of the time line = "never" (i32::MAX, or 255 in the narrow instantiation)
     tmax: i32,
+    /// keys an interrupted operation was about to change: always part of the observation window
+    touched: Vec<i32>,
     pub gen: KeyGen,
 }
 
@@ -404,7 +406,7 @@ impl KeyWorld {
             Some(r) => Self::draw_gen(&cfg, r),
             None => Self::default_gen(),
         };
-        KeyWorld { now: if narrow { cfg.t0.clamp(0, tmax) } else { cfg.t0 }, cfg, colls, twins: (0..n).map(|_| None).collect(), names, model: BTreeMap::new(), next_id: 1, peak: vec![0; n], cleared_once: false, last_n: 0, tmax, gen }
+        KeyWorld { now: if narrow { cfg.t0.clamp(0, tmax) } else { cfg.t0 }, cfg, colls, twins: (0..n).map(|_| None).collect(), names, model: BTreeMap::new(), next_id: 1, peak: vec![0; n], cleared_once: false, last_n: 0, tmax, touched: Vec::new(), gen }
     }
 
     fn default_gen() -> KeyGen {
@@ -605,6 +607,11 @@ impl KeyWorld {
             }
             set.insert(self.cfg.key_lo - 1);
             set.insert(self.cfg.key_lo.saturating_add(self.cfg.universe));
+            for k in &self.touched {
+                set.insert(k.saturating_sub(1));
+                set.insert(*k);
+                set.insert(k.saturating_add(1));
+            }
             v.extend(set);
         }
         v
@@ -993,6 +1000,35 @@ impl KeyWorld {
             return Ok(());
         }
         self.post_structure(ctx, opkind)?;
+        self.touched.clear();
+        if let Some(a) = after.as_ref() {
+            for (k, v) in a.iter() {
+                if self.model.get(k) != Some(v) && self.touched.len() < 8 {
+                    self.touched.push(*k);
+                }
+            }
+        }
+        // whatever the window shows: every live entry of the reference (before, or after) is
+        // still physically stored, with its identity
+        if self.model.len() <= 5000 {
+            let t = self.now;
+            for ci in 0..self.colls.len() {
+                if let Some(c) = self.colls[ci].as_ref() {
+                    let stored: BTreeMap<i32, u32> = c.stored().iter().filter(|k| k.exp > t).map(|k| (k.key, k.id)).collect();
+                    let holds = |m: &BTreeMap<i32, MEnt>| m.iter().filter(|(_, e)| e.exp > t).all(|(k, e)| stored.get(k) == Some(&e.id));
+                    ctx.stats.oracle_evals += 1;
+                    if !holds(&self.model) && !after.as_ref().map(holds).unwrap_or(false) {
+                        return Err(mismatch(
+                            "torn",
+                            self.names[ci],
+                            opkind,
+                            "live entries neither before nor after",
+                            format!("after a callback panic inside {} some live entry of the reference (before and after the operation alike) is no longer stored: {} live entries stored", opkind, stored.len()),
+                        ));
+                    }
+                }
+            }
+        }
         let kinds = O_KPRED | O_KGET;
         let exp_before = self.expected_observation(&self.model, kinds);
         let exp_after = after.as_ref().map(|m| self.expected_observation(m, kinds));
@@ -1181,16 +1217,51 @@ impl KeyWorld {
         Ok(())
     }
 
-    /// Giant build: n keys 0, 2, 4, ... in ascending or descending order, all "never" expiring,
-    /// inserted in chunks (one guarded call per chunk); the reference map is built in bulk.
+    /// Bulk build: n keys 0, 2, 4, ... in ascending or descending order, inserted in chunks (one
+    /// guarded call per chunk) with no query in between; `pat / 2` selects which of them expire at
+    /// the next tick. The reference map is built in bulk.
     fn do_bulk(&mut self, n: i32, pat: u8, ctx: &mut RunCtx) -> Result<(), Stop> {
         let cfg = self.cfg.clone();
         let t = self.now;
-        let exp = self.tmax;
+        let never = self.tmax;
+        let soon = t.saturating_add(1).min(self.tmax);
+        let later = t.saturating_add(2).min(self.tmax);
+        let mode = pat / 2;
         let first_id = self.next_id;
         self.next_id += n as u32;
-        ctx.stats.bump("bulk.giant_tree_built");
-        let key_of = |i: i32| -> i32 { if pat == 0 { 2 * i } else { 2 * (n - 1 - i) } };
+        ctx.stats.bump(if n > 1_000_000 { "bulk.giant_tree_built" } else { "bulk.large_tree_built" });
+        if mode != 0 {
+            ctx.stats.bump("bulk.mass_expiry_prepared");
+        }
+        let key_of = |i: i32| -> i32 { if pat % 2 == 0 { 2 * i } else { 2 * (n - 1 - i) } };
+        // expiration as a function of the key's rank r = key / 2
+        let exp_of = |r: i32| -> i32 {
+            match mode {
+                0 => never,
+                1 => soon,
+                2 => {
+                    if r >= n / 3 && r < 2 * (n / 3) {
+                        soon
+                    } else {
+                        never
+                    }
+                }
+                3 => {
+                    if r % 2 == 0 {
+                        soon
+                    } else {
+                        never
+                    }
+                }
+                _ => {
+                    if r < n / 2 {
+                        soon
+                    } else {
+                        later
+                    }
+                }
+            }
+        };
         for ci in 0..self.colls.len() {
             let name = self.names[ci];
             let c = match self.colls[ci].as_mut() {
@@ -1204,18 +1275,25 @@ impl KeyWorld {
                 let (_, cb) = call(ctx, &cfg, name, "insert (bulk)", "KBulk", false, None, None, || {
                     for i in i0..i1 {
                         let id = first_id + i as u32;
-                        c.insert(SimKey { key: key_of(i), exp, id }, id as i64, t);
+                        let k = key_of(i);
+                        c.insert(SimKey { key: k, exp: exp_of(k / 2), id }, id as i64, t);
                     }
                 })?;
                 cb_total = cb_total.saturating_add(cb);
                 i0 = i1;
             }
             if ci == 0 {
-                ctx.cb_counts.push(cb_total);
+                // no crash points inside a bulk build: it only sets the stage
+                ctx.cb_counts.push(if cfg.has(O_TORN) { 0 } else { cb_total });
             }
         }
-        let mut pairs: Vec<(i32, MEnt)> = (0..n).map(|i| (key_of(i), MEnt { exp, val: (first_id + i as u32) as i64, id: first_id + i as u32 })).collect();
-        if pat != 0 {
+        let mut pairs: Vec<(i32, MEnt)> = (0..n)
+            .map(|i| {
+                let k = key_of(i);
+                (k, MEnt { exp: exp_of(k / 2), val: (first_id + i as u32) as i64, id: first_id + i as u32 })
+            })
+            .collect();
+        if pat % 2 != 0 {
             pairs.reverse();
         }
         self.model = pairs.into_iter().collect();
@@ -1477,7 +1555,8 @@ impl World for KeyWorld {
             Op::KLeqBy { fl, .. } => *fl <= 2,
             Op::KClear { .. } => true,
             Op::KExport { dt } => *dt >= 0,
-            Op::KBulk { n, pat } => self.model.is_empty() && !self.cleared_once && *n > 0 && *pat <= 1 && self.now < self.tmax && self.colls.iter().flatten().all(|c| c.snapshot().is_some()),
+            // (the sorted list takes part only in ascending builds of moderate size: anything else is quadratic)
+            Op::KBulk { n, pat } => self.model.is_empty() && !self.cleared_once && *n > 0 && *pat <= 9 && self.now < self.tmax && self.colls.iter().flatten().all(|c| c.snapshot().is_some() || (*pat % 2 == 0 && *n <= 100_000)),
             _ => false,
         }
     }
@@ -1566,6 +1645,50 @@ impl World for KeyWorld {
                     self.gen.forest = 0;
                     self.gen.fill_target = None;
                 }
+            }
+        }
+        if self.gen.generated == 1 && self.model.len() >= 64 {
+            // the run started with a bulk build: let the clock pass the early expirations, then
+            // operations of every kind of this run's alphabet at the edges of the expired block(s),
+            // inside them, at both extremes and at the root; insertions into the expired region
+            self.gen.forest = 0;
+            self.gen.pulse = false;
+            self.gen.fill_target = None;
+            let n = self.model.len();
+            let nth = |m: &BTreeMap<i32, MEnt>, i: usize| -> i32 { *m.keys().nth(i.min(n - 1)).unwrap() };
+            let mut probes: Vec<i32> = vec![nth(&self.model, 0), nth(&self.model, n - 1), nth(&self.model, n / 3), nth(&self.model, n / 3).saturating_sub(1), nth(&self.model, n / 2), nth(&self.model, 2 * (n / 3)), nth(&self.model, (2 * (n / 3)).saturating_sub(1)), nth(&self.model, n / 2).saturating_add(1)];
+            if n <= 1_000_000 {
+                if let Some(s) = self.colls.first().and_then(|c| c.as_ref()).and_then(|c| c.snapshot()) {
+                    if let Some(nd) = s.slots.get(s.root as usize) {
+                        probes.push(nd.key);
+                    }
+                }
+            }
+            self.gen.pending.push_back(Op::Tick { dt: *r.pick(&[1, 1, 2, 2, 3]) });
+            let w = self.gen.w;
+            let mut ops: Vec<Op> = Vec::new();
+            for &p in &probes {
+                if w[W_LEQ] > 0 {
+                    ops.push(Op::KLeq { k: p, pexp: 0 });
+                }
+                if w[W_LESS] > 0 {
+                    ops.push(Op::KLess { k: p, pexp: 0 });
+                }
+                if w[W_LEQBY] > 0 {
+                    ops.push(Op::KLeqBy { k: p, fl: (p & 1) as u8 });
+                }
+                if w[W_GET] > 0 {
+                    ops.push(Op::KGet { k: p, pexp: i32::MAX });
+                }
+                ops.push(Op::KIns { k: p, exp: self.tmax });
+            }
+            // a random dozen of them, in random order
+            for i in (1..ops.len()).rev() {
+                let j = r.below(i as u64 + 1) as usize;
+                ops.swap(i, j);
+            }
+            for op in ops.into_iter().take(12) {
+                self.gen.pending.push_back(op);
             }
         }
         if self.gen.forced_clear_at == Some(self.gen.generated - 1) {
